@@ -64,3 +64,13 @@ Theorem C28_tables_independent :
     t <> t' -> cur (snd (sstep branches tables autos s (SGen t) w)) t' = cur w t'.
 Proof. exact tables_independent. Qed.
 Print Assumptions C28_tables_independent.
+
+Theorem C28_recreate_keeps_max_of_others :
+  forall branches tables autos s t w,
+    let w1 := commit_s s w in
+    let b := sbr w1 s in
+    let w' := snd (sstep branches tables autos s (SRecreate t) w) in
+    cur w' t = N.max 1 (max_over (fun b' => if b' =? b then 0 else bval w1 b' t) branches)
+    /\ (forall b', In b' branches -> bval w' b' t <= cur w' t).
+Proof. exact recreate_keeps_max_of_others. Qed.
+Print Assumptions C28_recreate_keeps_max_of_others.
